@@ -999,20 +999,54 @@ func runC06Cmp(c *Ctx) {
 		c.undecided("validateCompareOpOperands|operators", fn.Pos(), fmt.Sprintf("only %d operator constants found", len(ops)))
 		return
 	}
-	eval := func(op int64, lk, rk string) string {
-		b := fn.Blocks[0]
+	// roles of values: 0 the operator, 1 the left operand type, 2 the right operand type. A return that hands the decision
+	// to another function of the module (`return validateEqualityOpOperands(l, r)`) is followed with the roles of the
+	// arguments; a call of a function that is already being evaluated is the recursion into element types.
+	var evalIn func(f *ssa.Function, bind map[ssa.Value]int, stack []*ssa.Function, op int64, lk, rk string) string
+	evalIn = func(f *ssa.Function, bind map[ssa.Value]int, stack []*ssa.Function, op int64, lk, rk string) string {
+		if len(f.Blocks) == 0 {
+			return "?"
+		}
+		roleOf := func(v ssa.Value) int {
+			if r, ok := bind[v]; ok {
+				return r
+			}
+			return -1
+		}
+		b := f.Blocks[0]
 		for steps := 0; steps < 500; steps++ {
 			last := b.Instrs[len(b.Instrs)-1]
 			switch t := last.(type) {
 			case *ssa.Return:
+				if len(t.Results) != 1 {
+					return "?"
+				}
 				switch r := t.Results[0].(type) {
 				case *ssa.Const:
 					if r.Value != nil {
 						return r.Value.String()
 					}
 				case *ssa.Call:
-					if staticCallee(&r.Call) == fn {
+					g := staticCallee(&r.Call)
+					if g == nil {
+						return "?"
+					}
+					if g == f {
 						return "rec"
+					}
+					for _, s := range stack {
+						if s == g {
+							return "rec"
+						}
+					}
+					if inModule(g) && len(stack) < 3 && len(g.Params) == len(r.Call.Args) {
+						bind2 := map[ssa.Value]int{}
+						for i, a := range r.Call.Args {
+							if ro := roleOf(a); ro >= 0 {
+								bind2[g.Params[i]] = ro
+							}
+						}
+						return evalIn(g, bind2, append(stack, f), op, lk, rk)
 					}
 				}
 				return "?"
@@ -1026,19 +1060,19 @@ func runC06Cmp(c *Ctx) {
 				switch cnd := t.Cond.(type) {
 				case *ssa.Extract:
 					if ta, ok := cnd.Tuple.(*ssa.TypeAssert); ok && cnd.Index == 1 {
-						switch ta.X {
-						case ssa.Value(fn.Params[1]):
+						switch roleOf(ta.X) {
+						case 1:
 							set(typeStr(ta.AssertedType) == lk)
-						case ssa.Value(fn.Params[2]):
+						case 2:
 							set(typeStr(ta.AssertedType) == rk)
 						}
 					}
 				case *ssa.BinOp:
 					if cnd.Op == token.EQL || cnd.Op == token.NEQ {
 						var k *ssa.Const
-						if cnd.X == ssa.Value(fn.Params[0]) {
+						if roleOf(cnd.X) == 0 {
 							k, _ = cnd.Y.(*ssa.Const)
-						} else if cnd.Y == ssa.Value(fn.Params[0]) {
+						} else if roleOf(cnd.Y) == 0 {
 							k, _ = cnd.X.(*ssa.Const)
 						}
 						if k != nil {
@@ -1061,6 +1095,9 @@ func runC06Cmp(c *Ctx) {
 			}
 		}
 		return "?"
+	}
+	eval := func(op int64, lk, rk string) string {
+		return evalIn(fn, map[ssa.Value]int{fn.Params[0]: 0, fn.Params[1]: 1, fn.Params[2]: 2}, nil, op, lk, rk)
 	}
 	for _, op := range ops {
 		tbl := map[[2]string]string{}
@@ -1315,6 +1352,59 @@ func runC19Cand(c *Ctx) {
 				for i, r := range ret.Results {
 					if r == rows {
 						k = i
+					}
+				}
+			}
+		}
+		// the builder may return the table as a field of a struct it composes (`return candidates{rows: rows, ...}`): the
+		// field index the table is stored in, for a struct that is a single result
+		fld := -1
+		if k < 0 && fn.Signature.Results().Len() == 1 {
+			eachInstr(fn, func(_ *ssa.BasicBlock, _ int, in ssa.Instruction) {
+				st, ok := in.(*ssa.Store)
+				if !ok || st.Val != rows {
+					return
+				}
+				fa, ok := st.Addr.(*ssa.FieldAddr)
+				if !ok {
+					return
+				}
+				al, ok := fa.X.(*ssa.Alloc)
+				if !ok {
+					return
+				}
+				for _, ref := range *al.Referrers() {
+					if ld, ok := ref.(*ssa.UnOp); ok && ld.Op == token.MUL {
+						for _, r2 := range *ld.Referrers() {
+							if _, ok := r2.(*ssa.Return); ok {
+								fld = fa.Field
+							}
+						}
+					}
+				}
+			})
+			if fld >= 0 {
+				for _, call := range findCalls(top, FuncName(fn)) {
+					if cv, ok := call.(*ssa.Call); ok {
+						for _, ref := range *cv.Referrers() {
+							if f, ok := ref.(*ssa.Field); ok && f.Field == fld {
+								isRows[f] = true
+							}
+							// the result kept in a local of the caller: loads of that field of the local
+							if st, ok := ref.(*ssa.Store); ok && st.Val == ssa.Value(cv) {
+								if al, ok := st.Addr.(*ssa.Alloc); ok && onlyStore(al, st) {
+									for _, r2 := range *al.Referrers() {
+										if fa, ok := r2.(*ssa.FieldAddr); ok && fa.Field == fld {
+											for _, r3 := range *fa.Referrers() {
+												if ld, ok := r3.(*ssa.UnOp); ok && ld.Op == token.MUL {
+													isRows[ld] = true
+												}
+											}
+										}
+									}
+								}
+							}
+						}
 					}
 				}
 			}
